@@ -46,6 +46,7 @@ class SimulationAlgorithmGraphBase
 
     int Poisson(double lambda)
         {
+        if(!(lambda > 0)) return 0; // std::poisson_distribution requires a strictly positive mean
         return std::poisson_distribution<int>(lambda)(rng);
         }
 
